@@ -23,12 +23,18 @@ ID = 'C14'
 ASSUMPTIONS = ['generated problems have a non-singular collocation (or normal) matrix with condition number <= 2e4 (the '
                "property's quantifier).  Non-singularity is PROVED (no hypothesis) for: clamped continuous non-periodic "
                'bases at Greville or nested user parameters (Schoenberg-Whitney: C14_interpolate_curve_greville/_nested, '
-               'surfaces: C14_interpolate_surface_greville_succeeds); least squares whose sample points contain a nested '
-               'subsequence (C14_lsq_exists/_reproduces); cubic_curve FREE and NATURAL on every strictly increasing '
-               'parameter sequence (C14_cubic_FREE_exists, C14_cubic_NATURAL_exists - energy argument); periodic bases '
-               'with a dominant collocation diagonal, in particular uniform C2 periodic cubics at their Greville points '
-               '(C14_interpolate_periodic_partial, C14_interpolate_periodic_uniform_cubic_partial).  It remains a hypothesis '
-               'for: other periodic problems, cubic_curve TANGENT/HERMITE/TANGENTNATURAL/PERIODIC, lofting, grid least squares',
+               'surfaces/volumes: C14_interpolate_surface/_volume_greville_succeeds); least squares whose sample points '
+               'contain a nested subsequence, curves and surface grids (C14_lsq_exists/_reproduces, '
+               'C14_lsq_surface_exists); cubic_curve FREE, NATURAL, TANGENT, TANGENTNATURAL and HERMITE on every strictly '
+               'increasing parameter sequence with gaps >= tol (C14_cubic_FREE/NATURAL/TANGENT/TANGENTNATURAL/'
+               'HERMITE_exists - Schoenberg-Whitney, energy argument, local Hermite uniqueness); cubic_curve PERIODIC on '
+               'uniform parameters (C14_cubic_PERIODIC_uniform_exists_partial); lofting of n >= 3 curve or surface '
+               'sections on common NON-PERIODIC clamped bases with centre distances >= tol (C14_loft_curves_partial, '
+               'C14_loft_surfaces_partial); periodic bases with a dominant collocation diagonal, in particular uniform C2 '
+               'periodic cubics at their Greville points (C14_interpolate_periodic_partial, '
+               'C14_interpolate_periodic_uniform_cubic_partial).  It remains a hypothesis for: other periodic '
+               'interpolation problems, cubic_curve PERIODIC on non-uniform parameters, lofting of periodic sections, '
+               'volume least squares',
                'the model\'s solve is the raw Gauss-Jordan Mat.solve (proved sound and complete; C14_solve_is_gauss_jordan), '
                "numpy/scipy's LAPACK/SuperLU solves are trusted to approximate it within the stated tolerances",
                'loft: the section nets handed to the model are those produced by the REAL make_splines_identical '
